@@ -60,9 +60,99 @@ type vfC04WPlan struct {
 	Side string `json:"side"` // d | l
 	K    int    `json:"k"`
 	N    int    `json:"n"` // loopback: messages the fake server reads before it hangs up
+	// kind "http": what a raw HTTP client sends during the wsneg stage and what it does after the answer
+	Req  string `json:"req"`
+	Then string `json:"then"` // close | stall (keep-alive, never hangs up) | second-valid | second-garbage
 }
 
+const vfC04WSKey = "dGhlIHNhbXBsZSBub25jZQ=="
+
+// vfC04WSRequests: an upgrade request that is fine, and one variant per validation the server performs
+// (net/http's parser, ws.IsWebSocketUpgrade, every check of gorilla's Upgrader.Upgrade before and after the
+// hijack), plus HTTP/1.0, a request with a body and pipelined requests.
+func vfC04WSRequest(name string) string {
+	h := func(first string, hs ...string) string { return first + "\r\n" + strings.Join(hs, "\r\n") + "\r\n\r\n" }
+	host, up, conn, key, ver := "Host: x", "Upgrade: websocket", "Connection: Upgrade", "Sec-WebSocket-Key: "+vfC04WSKey, "Sec-WebSocket-Version: 13"
+	switch name {
+	case "valid":
+		return h("GET / HTTP/1.1", host, up, conn, key, ver)
+	case "post":
+		return h("POST / HTTP/1.1", host, up, conn, key, ver, "Content-Length: 0")
+	case "no-upgrade-header":
+		return h("GET / HTTP/1.1", host, conn, key, ver)
+	case "no-connection-header":
+		return h("GET / HTTP/1.1", host, up, key, ver)
+	case "connection-keepalive-only":
+		return h("GET / HTTP/1.1", host, up, "Connection: keep-alive", key, ver)
+	case "dup-tokens":
+		return h("GET / HTTP/1.1", host, up, up, "Connection: keep-alive, Upgrade", conn, key, ver)
+	case "upgrade-h2c":
+		return h("GET / HTTP/1.1", host, "Upgrade: h2c, websocket", conn, key, ver)
+	case "no-key":
+		return h("GET / HTTP/1.1", host, up, conn, ver)
+	case "empty-key":
+		return h("GET / HTTP/1.1", host, up, conn, "Sec-WebSocket-Key: ", ver)
+	case "short-key":
+		return h("GET / HTTP/1.1", host, up, conn, "Sec-WebSocket-Key: c2hvcnQ=", ver)
+	case "bad-key":
+		return h("GET / HTTP/1.1", host, up, conn, "Sec-WebSocket-Key: !!!not base64!!!", ver)
+	case "dup-key":
+		return h("GET / HTTP/1.1", host, up, conn, key, key, ver)
+	case "no-version":
+		return h("GET / HTTP/1.1", host, up, conn, key)
+	case "version-12":
+		return h("GET / HTTP/1.1", host, up, conn, key, "Sec-WebSocket-Version: 12")
+	case "version-junk":
+		return h("GET / HTTP/1.1", host, up, conn, key, "Sec-WebSocket-Version: thirteen")
+	case "origin-foreign":
+		return h("GET / HTTP/1.1", host, up, conn, key, ver, "Origin: http://evil.example")
+	case "subprotocol":
+		return h("GET / HTTP/1.1", host, up, conn, key, ver, "Sec-WebSocket-Protocol: nope, neither")
+	case "extensions":
+		return h("GET / HTTP/1.1", host, up, conn, key, ver, "Sec-WebSocket-Extensions: permessage-deflate; junk=1")
+	case "response-ext-header":
+		return h("GET / HTTP/1.1", host, up, conn, key, ver, "Sec-Websocket-Extensions: x")
+	case "http10":
+		return h("GET / HTTP/1.0", host, up, conn, key, ver)
+	case "http10-no-key":
+		return h("GET / HTTP/1.0", host, up, conn, ver)
+	case "no-host":
+		return h("GET / HTTP/1.1", up, conn, key, ver)
+	case "with-body":
+		return h("GET / HTTP/1.1", host, up, conn, key, ver, "Content-Length: 5") + "hello"
+	case "no-key-with-body":
+		return h("GET / HTTP/1.1", host, up, conn, ver, "Content-Length: 5") + "hello"
+	case "chunked-body":
+		return h("GET / HTTP/1.1", host, up, conn, ver, "Transfer-Encoding: chunked") + "5\r\nhello\r\n"
+	case "expect-continue":
+		return h("POST / HTTP/1.1", host, up, conn, ver, "Expect: 100-continue", "Content-Length: 5")
+	case "pipelined-bad-valid":
+		return h("GET / HTTP/1.1", host, up, conn, ver) + h("GET / HTTP/1.1", host, up, conn, key, ver)
+	case "pipelined-bad-bad":
+		return h("GET / HTTP/1.1", host, up, conn, ver) + h("GET / HTTP/1.1", host, up, conn, key)
+	case "pipelined-get-bad":
+		return h("GET /a HTTP/1.1", host) + h("GET / HTTP/1.1", host, up, conn, ver)
+	case "connection-close-no-key":
+		return h("GET / HTTP/1.1", host, up, "Connection: Upgrade, close", ver)
+	case "head":
+		return h("HEAD / HTTP/1.1", host, up, conn, key, ver)
+	case "options-star":
+		return h("OPTIONS * HTTP/1.1", host, up, conn, key, ver)
+	case "huge-header":
+		return h("GET / HTTP/1.1", host, up, conn, ver, "X-Pad: "+strings.Repeat("a", 9000))
+	}
+	return name
+}
+
+var vfC04WSReqNames = []string{"valid", "post", "no-upgrade-header", "no-connection-header", "connection-keepalive-only", "dup-tokens",
+	"upgrade-h2c", "no-key", "empty-key", "short-key", "bad-key", "dup-key", "no-version", "version-12", "version-junk", "origin-foreign",
+	"subprotocol", "extensions", "response-ext-header", "http10", "http10-no-key", "no-host", "with-body", "no-key-with-body", "chunked-body",
+	"expect-continue", "pipelined-bad-valid", "pipelined-bad-bad", "pipelined-get-bad", "connection-close-no-key", "head", "options-star", "huge-header"}
+
 func (p vfC04WPlan) String() string {
+	if p.Kind == "http" {
+		return "http/" + p.Req + "/" + p.Then
+	}
 	s := p.Kind
 	if p.K > 0 {
 		s += fmt.Sprintf("@%s%d", p.Side, p.K)
@@ -336,6 +426,50 @@ func vfC04WScenario(t *testing.T, plan vfC04WPlan, tr *vfh.Trace, out *vfC04WOut
 			done <- struct{}{}
 		}
 		switch plan.Kind {
+		case "http":
+			// a raw HTTP client: one request of the family, then close / keep-alive stall / a second request
+			c, _ := netDial("", "")
+			c.Write([]byte(vfC04WSRequest(plan.Req)))
+			readAnswer := func() string {
+				var got []byte
+				b := make([]byte, 512)
+				c.SetReadDeadline(time.Now().Add(5 * time.Second))
+				for !strings.Contains(string(got), "\r\n\r\n") {
+					n, err := c.Read(b)
+					got = append(got, b[:n]...)
+					if err != nil {
+						break
+					}
+				}
+				c.SetReadDeadline(time.Time{})
+				if i := strings.Index(string(got), "\r\n"); i > 0 {
+					return string(got[:i])
+				}
+				return "(no answer)"
+			}
+			st := readAnswer()
+			out.Hit = true
+			tr.Emit("note", "what", "http-answer", "status", st)
+			switch plan.Then {
+			case "close":
+				c.Close()
+				fail("raw-http-client", fmt.Errorf("vf: %s -> %s", plan.Req, st))
+				return
+			case "second-valid":
+				c.Write([]byte(vfC04WSRequest("valid")))
+				tr.Emit("note", "what", "http-answer-2", "status", readAnswer())
+			case "second-garbage":
+				c.Write([]byte("\x00\x01 garbage after the first request\r\n\r\n"))
+			}
+			b := make([]byte, 512)
+			for {
+				if _, err := c.Read(b); err != nil { // until the server hangs up; this client never does
+					break
+				}
+			}
+			c.Close()
+			fail("raw-http-client", fmt.Errorf("vf: %s -> %s", plan.Req, st))
+			return
 		case "silent", "half-request", "http-get", "garbage":
 			// not a websocket client at all
 			c, _ := netDial("", "")
@@ -415,7 +549,7 @@ wait:
 	}
 	_, _ = connD, connL
 	switch plan.Kind {
-	case "silent", "half-request", "http-get", "garbage":
+	case "silent", "half-request", "http-get", "garbage", "http":
 		// three minutes have passed, the handshake time-out is 15 s: the listener has given this attempt up
 		// by itself (the client is still connected and will never hang up)
 		synctest.Wait()
@@ -458,7 +592,7 @@ wait:
 	synctest.Wait()
 	out.Leaked = vfc04.Census()
 	switch plan.Kind {
-	case "none", "err", "eof", "stall", "cancel", "lclose", "lclose-sync", "cclose":
+	case "none", "err", "eof", "stall", "cancel", "lclose", "lclose-sync", "cclose", "http":
 	case "no-accept", "rm-open-l", "rm-setpeer-l", "gater-secured-l":
 		out.Hit = !acc
 	default:
@@ -764,7 +898,7 @@ func TestVerifC04Websocket(t *testing.T) {
 		res.Count(1, tr.Len())
 		if out.Hit {
 			hits++
-			res.Case(fmt.Sprintf("%s|%s|%d", plan.Kind, plan.Side, plan.N))
+			res.Case(fmt.Sprintf("%s|%s|%d|%s|%s", plan.Kind, plan.Side, plan.N, plan.Req, plan.Then))
 			exits["ws|"+plan.Kind] = true
 		}
 		if path != "" {
@@ -810,6 +944,16 @@ func TestVerifC04Websocket(t *testing.T) {
 	res.Set("ops/ws", []int{dry.OpsD, dry.OpsL})
 	for _, k := range []string{"silent", "half-request", "http-get", "garbage", "no-accept", "rm-open-l", "rm-setpeer-l", "gater-secured-l", "gater-secured-d"} {
 		run(vfC04WPlan{Kind: k})
+	}
+	// the client side of the websocket negotiation: every HTTP-level outcome x what the client does next
+	thens := []string{"stall", "close", "second-valid", "second-garbage"}
+	for i, req := range vfC04WSReqNames {
+		for j, then := range thens {
+			if !vfh.Thorough() && then != "stall" && (i+j)%3 != int(vfh.Seed())%3 {
+				continue // quick: every request with a keep-alive stall, a seeded third of the other continuations
+			}
+			run(vfC04WPlan{Kind: "http", Req: req, Then: then})
+		}
 	}
 	for _, side := range []string{"d", "l"} {
 		n := dry.OpsD
